@@ -118,6 +118,7 @@ def run_one(d: Path, props, commit=None):
 def main():
     ap = argparse.ArgumentParser()
     ap.add_argument("--only", default=None)
+    ap.add_argument("--suffix", default=None, help="only the variants whose suffix letter is in this string (e.g. efst = round 3)")
     ap.add_argument("--own", action="store_true", help="run only the check of the property the change targets")
     ap.add_argument("--jobs", type=int, default=8)
     ap.add_argument("--fast", action="store_true", help="skip the (slow) C13 check for changes that do not target C13 and do not touch the type system")
@@ -125,8 +126,12 @@ def main():
     dirs = sorted(p for p in (VERIF / "seeded").iterdir() if (p / "patch.diff").exists())
     if a.only:
         dirs = [d for d in dirs if a.only in d.name]
+    if a.suffix:
+        dirs = [d for d in dirs if d.name.split("-")[-1] in a.suffix]
     allp = checks()
     out = {}
+    if (a.only or a.suffix) and (VERIF / "seeded" / "RESULTS.json").exists():
+        out = json.loads((VERIF / "seeded" / "RESULTS.json").read_text())
 
     def job(d):
         meta = json.loads((d / "meta.json").read_text()) if (d / "meta.json").exists() else {}
@@ -151,7 +156,7 @@ def main():
             for p in hit + err:
                 for ln in res[p]["reports"][:8]:
                     print(f"             {p}: {ln[:300]}")
-    if not a.only:
+    if not a.only:  # a partial run (--suffix) merges into the existing table
         (VERIF / "seeded" / "RESULTS.json").write_text(json.dumps(out, indent=1))
     return 0
 
